@@ -1,13 +1,211 @@
 package main
 
+// Harness self-tests (not part of any verdict):
+//  1. jsonref agrees with encoding/json on how many values a byte stream
+//     holds before its first defect, for seeded valid and faulted streams;
+//  2. determinism: for every workload, the event-log hashes of cases 0..n-1
+//     are identical across processes started with GOMAXPROCS 1, 4 and 16 and
+//     across two executions in the same process;
+//  3. the tape shrinker minimises a synthetic failing predicate.
+
 import (
+	"bytes"
 	"encoding/json"
 	"fmt"
+	"io"
 	"os"
+	"os/exec"
+	"strconv"
+	"strings"
 )
 
+func goDecodeCount(data []byte) (int, bool) {
+	d := json.NewDecoder(bytes.NewReader(data))
+	n := 0
+	for {
+		var v any
+		err := d.Decode(&v)
+		if err == io.EOF {
+			return n, true
+		}
+		if err != nil {
+			return n, false
+		}
+		n++
+	}
+}
+
+func selftestJsonref(n int) int {
+	bad := 0
+	dub := 0
+	for i := 0; i < n; i++ {
+		t := NewTape(DeriveSeed(7, "selftest-jsonref", strconv.Itoa(i)))
+		c := genStreamCase(t, streamGenOpts{mode: "c03", maxFiles: 2, maxVals: 5, selectors: true, faults: []string{"TRUNC", "CORRUPT", "STRAY"}, faultProb: 70, sigProb: 0})
+		for fi := range c.Files {
+			data, _ := c.Visible(fi)
+			ref := ScanStream(data)
+			if ref.Dubious {
+				dub++
+				continue
+			}
+			cnt, clean := goDecodeCount(data)
+			if cnt != len(ref.Values) || clean != (ref.Status == RefClean) {
+				bad++
+				if bad <= 5 {
+					fmt.Printf("jsonref disagreement on %q: jsonref %d values status %d, encoding/json %d values clean=%v\n", data, len(ref.Values), ref.Status, cnt, clean)
+				}
+			}
+		}
+	}
+	// fully random bytes from a JSON-ish alphabet
+	alpha := []byte("[]{}:,\"\\ 0123456789.-+eEtruefalsn\n\tx\x00\xff")
+	for i := 0; i < n; i++ {
+		t := NewTape(DeriveSeed(7, "selftest-jsonref-rand", strconv.Itoa(i)))
+		l := t.Draw(24)
+		data := make([]byte, l)
+		for k := range data {
+			data[k] = alpha[t.Draw(len(alpha))]
+		}
+		ref := ScanStream(data)
+		if ref.Dubious {
+			dub++
+			continue
+		}
+		cnt, clean := goDecodeCount(data)
+		if cnt != len(ref.Values) || clean != (ref.Status == RefClean) {
+			bad++
+			if bad <= 10 {
+				fmt.Printf("jsonref disagreement on %q: jsonref %d values status %d, encoding/json %d values clean=%v\n", data, len(ref.Values), ref.Status, cnt, clean)
+			}
+		}
+	}
+	fmt.Printf("selftest jsonref: %d streams, %d disagreements, %d skipped as unspecified\n", 2*n, bad, dub)
+	return bad
+}
+
+// hashesMain prints the outcome hash of cases lo..hi-1 of a workload.
+func hashesMain(args []string) int {
+	prop := registry[args[0]]
+	w := prop.workload(args[1])
+	lo, _ := strconv.Atoi(args[2])
+	hi, _ := strconv.Atoi(args[3])
+	seed := seedFromEnv()
+	var sb strings.Builder
+	for i := lo; i < hi; i++ {
+		c := w.Gen(i, caseTape(seed, prop.ID, w, i), "quick")
+		o := w.Run(c, false)
+		c2 := w.Gen(i, caseTape(seed, prop.ID, w, i), "quick")
+		o2 := w.Run(c2, false)
+		if o.LogHash != o2.LogHash || o.Class != o2.Class {
+			fmt.Fprintf(&sb, "%d SAME-PROCESS-MISMATCH\n", i)
+			continue
+		}
+		fmt.Fprintf(&sb, "%d %s %s\n", i, o.LogHash, o.Class)
+	}
+	os.Stdout.WriteString(sb.String())
+	return 0
+}
+
+func selftestDeterminism(n int) int {
+	bad := 0
+	for _, pid := range []string{"C01", "C02", "C03", "C08", "C09", "C14", "C15"} {
+		prop := registry[pid]
+		for _, w := range prop.Workloads {
+			if w.Isolated || w.NoRecheck {
+				continue
+			}
+			cnt := n
+			if c := w.Count("quick"); c < cnt {
+				cnt = c
+			}
+			if pid == "C14" || w.Name == "process" || w.Name == "long-histories" {
+				if cnt > 60 {
+					cnt = 60
+				}
+			}
+			var outs []string
+			// 4 processes per GOMAXPROCS value, each a quarter of the range
+			for _, gmp := range []string{"1", "4", "16"} {
+				var all strings.Builder
+				for part := 0; part < 4; part++ {
+					lo, hi := part*cnt/4, (part+1)*cnt/4
+					cmd := exec.Command(selfExe(), "hashes", pid, w.Name, strconv.Itoa(lo), strconv.Itoa(hi))
+					cmd.Env = append(os.Environ(), "GOMAXPROCS="+gmp)
+					out, err := cmd.Output()
+					if err != nil {
+						fmt.Printf("selftest determinism: %s/%s failed: %v\n", pid, w.Name, err)
+						bad++
+					}
+					all.Write(out)
+				}
+				outs = append(outs, all.String())
+			}
+			ok := outs[0] == outs[1] && outs[1] == outs[2] && !strings.Contains(outs[0], "MISMATCH")
+			if !ok {
+				bad++
+				a, b := strings.Split(outs[0], "\n"), strings.Split(outs[2], "\n")
+				for i := range a {
+					if i < len(b) && a[i] != b[i] {
+						fmt.Printf("  first difference: %q vs %q\n", a[i], b[i])
+						break
+					}
+				}
+				for _, l := range a {
+					if strings.Contains(l, "MISMATCH") {
+						fmt.Printf("  %s\n", l)
+						break
+					}
+				}
+			}
+			fmt.Printf("selftest determinism: %s/%-16s %5d cases x 3 GOMAXPROCS values x 2 executions: %v\n", pid, w.Name, cnt, map[bool]string{true: "identical", false: "DIFFER"}[ok])
+		}
+	}
+	return bad
+}
+
+func selftestShrinker() int {
+	// fails iff the tape contains a value >= 7 followed later by a value >= 3
+	fails := func(tp []uint32) bool {
+		seen := false
+		for _, v := range tp {
+			if seen && v >= 3 {
+				return true
+			}
+			if v >= 7 {
+				seen = true
+			}
+		}
+		return false
+	}
+	t := NewTape(99)
+	tape := make([]uint32, 5000)
+	for i := range tape {
+		tape[i] = uint32(t.Draw(10))
+	}
+	min, evals := ShrinkTape(tape, fails, 3000)
+	ok := fails(min) && len(min) == 2 && min[0] == 7 && min[1] == 3
+	fmt.Printf("selftest shrinker: 5000 draws -> %v in %d evaluations: %v\n", min, evals, ok)
+	if !ok {
+		return 1
+	}
+	return 0
+}
+
 func selftestMain(args []string) int {
-	fmt.Println("selftest: not yet implemented")
+	n := 4000
+	if len(args) > 0 {
+		if v, err := strconv.Atoi(args[0]); err == nil {
+			n = v
+		}
+	}
+	bad := selftestShrinker()
+	bad += selftestJsonref(n * 10)
+	bad += selftestDeterminism(n)
+	if bad > 0 {
+		fmt.Println("SELFTEST FAILED")
+		return 2
+	}
+	fmt.Println("selftest ok")
 	return 0
 }
 
